@@ -11,7 +11,7 @@ CHECKS = {
    cat="proof",
    text="Lean block-sparse tensor model (M3-M5): every operation is defined on blocks as index functions; theorems state that toDense commutes with the "
         "algebra: element-wise ops, conj, flip_signature, add/sub, transpose, block access, and toDense_tensordot: tensordot over ANY contracted axes (any number, positions, order) equals the dense contraction over "
-        "common leg spaces, for all ranks, sector contents and any commutative ring (toDense_matmul is the matrix-product instance), vdot_eq_dense (vdot = dense inner product), toDense_trace (partial trace over any axis pairs = dense partial trace) toDense_broadcast (diagonal operand), toDense_addLeg (= expand_dims), toDense_removeLeg (= squeeze) toDense_applyMask (= numpy.take along the masked leg; + wf_applyMask), toDense_diag (+ wf_diag) and matmul_assoc_dense ((a@b)@c and a@(b@c) have the same dense array: the order of two contractions does not matter); "
+        "common leg spaces, for all ranks, sector contents and any commutative ring (toDense_matmul is the matrix-product instance), vdot_eq_dense (vdot = dense inner product), toDense_trace (partial trace over any axis pairs = dense partial trace) toDense_broadcast (diagonal operand), toDense_addLeg (= expand_dims), toDense_removeLeg (= squeeze) toDense_applyMask (= numpy.take along the masked leg; + wf_applyMask), toDense_diag (+ wf_diag) and matmul_assoc_dense ((a@b)@c and a@(b@c) have the same dense array: the order of two contractions does not matter) and pointwise_prog_dense (whole programs of element-wise operations evaluate entry by entry like the same program on numbers); "
         "ncon/einsum are covered by correspondence + NumPy oracles only; operands held lazily / with fused legs by exact view relations (harness/views.py). "
         "Tie: random type-directed programs executed on the real code; after EVERY step the real observables (signature, charge, block keys/shapes/values via "
         "public block access) are compared exactly (integer data) with the compiled Lean model and with NumPy on dense operands; block access/to_numpy/"
